@@ -336,6 +336,22 @@ def _solve_all(r, case, P, tag):
             # objective without the indicator for a slightly infeasible point
             Fx = prob.f_smooth(x.ravel())
         gap = Fx - Fstar
+        if not gap <= slack and case["smin"] < 0.2 and eff != "ConjugateGradient" and np.isfinite(gap):
+            # ill-conditioned class: first-order solvers may simply be slow. One more run with six times the budget decides:
+            # a solver that minimises the documented objective gets (much) closer, one that minimises something else does not.
+            try:
+                np.random.seed(case["seed"] % (2 ** 31))
+                x_in2 = None if P["x0"] is None else _lay(P["x0"].copy(), case.get("layout", "c"))
+                app2 = sp.app.LinearLeastSquares(P["Aop"], P["y"], x=x_in2, proxg=P["proxg"], lamda=P["lamda"], G=P["Gop"], z=P["z"],
+                                                 solver=solver, max_iter=6 * mi, tol=0, show_pbar=False, **kw)
+                x2 = np.asarray(app2.run())
+                Fx2 = prob.f_smooth(x2.ravel()) if case["proxg"] == "box" else prob.F(x2)
+                r.label("ill-conditioned:re-run-with-6x-budget")
+                if np.isfinite(Fx2) and Fx2 - Fstar <= slack:
+                    gap = Fx2 - Fstar
+                    Fx = Fx2
+            except Exception:
+                pass
         if not gap <= slack:
             r.fail("not-the-minimiser:%s:%s:prox=%s%s" % (eff, _cfg(case), case["proxg"], tag),
                    "F(x_out) = %.9g, F* = %.9g (gap %.3e > %.3e); solver option %s; objectives of the other solvers so far: %s"
